@@ -168,16 +168,21 @@ def r4_mutation_target_is_the_lexical_variable(ctx):
     """An in-place mutation reaches the array of the variable its base name is *bound* to (shared with C04-R5c): if the
     binding query misses, the base is looked up by name on the dynamic scope stack and a caller's same-named array is
     mutated instead - a mutation becomes visible through another name."""
-    from .c04 import r5c_query_on_the_variable_node
+    from .c04 import r2_innermost_first, r5c_query_on_the_variable_node
     r5c_query_on_the_variable_node(ctx)
+    # ... and of the *current* activation: scope-stack searches go innermost scope first, newest entry first (C04-R2); under
+    # recursion an outermost-first search mutates the array of an older activation's variable of the same name/id
+    r2_innermost_first(ctx)
 
 
 def r5_storing_copies_every_item(ctx):
     """Every routine that moves a value between storage classes (promote / detach / clone_into) visits all items of an array
     and returns a new vector (shared with C02-R5): an item that is passed through keeps borrowing the source array's string
     slot, so the copy changes when the source element is overwritten."""
-    from .c02 import r5_promotion_complete
+    from .c02 import param_binding_rule, r5_promotion_complete
     r5_promotion_complete(ctx)
+    # an array handed to a function is detached, at every depth, from the variable it was read from
+    param_binding_rule(ctx)
 
 
 RULES = [("C05-R1", r1_no_shallow_copy_possible), ("C05-R2", r2_deep_clone_complete), ("C05-R3", r3_reads_clone_and_mutation_needs_lvalue),
